@@ -30,6 +30,7 @@ type Enc struct {
 }
 
 type OpqStr struct {
+	Key  string // structural identity (same key => same text)
 	ID   int
 	Desc string
 	Args []Value
